@@ -278,6 +278,38 @@ func liveRound(e *core.Env, round, per int, dns *svx.FakeDNS) {
 				blasted++
 			}
 			uc.Close()
+			// ---- an ESTABLISHED session's own traffic, cut short: a genuine datagram of a live session is captured and every
+			// prefix of it (and prefixes with a damaged tail) is sent from the session's socket. The first 16 bytes still
+			// decrypt to the session's id, so these reach the per-session unpacker instead of the new-session path.
+			if s.name == "tun" {
+				continue
+			}
+			if hc, err := svx.NewClient(svx.JSON(t.ClientFor("cut", s.name, s.proto, port, 0, false, true))); err == nil {
+				if peer, err := hc.NewUDPPeer("127.0.0.1"); err == nil {
+					hr := peer.Info.PackerHeadroom
+					pl := []byte("established-session")
+					b := make([]byte, hr.Front+len(pl)+hr.Rear+16)
+					copy(b[hr.Front:], pl)
+					if dest, ps, pln, err := peer.Sess.Packer.PackInPlace(context.Background(), b, conn.AddrFromIPPort(udpT.Addr), hr.Front, len(pl)); err == nil {
+						pkt := append([]byte{}, b[ps:ps+pln]...)
+						peer.SendRaw(dest, pkt)
+						if svx.Poll(5*time.Second, func() bool { return len(peer.Got()) >= 1 }) {
+							rec.Begin("live", round, fmt.Sprintf("udp %s: every prefix of a genuine datagram of an established session %s", s.name, core.Hex(pkt, 48)))
+							for n := 0; n <= len(pkt); n++ {
+								peer.SendRaw(dest, pkt[:n])
+								if n >= 16 && n < len(pkt) {
+									d := append([]byte{}, pkt[:n]...)
+									d[n-1] ^= 0x40
+									peer.SendRaw(dest, d)
+								}
+								blasted += 2
+							}
+							rec.Count("established_session_prefixes", int64(len(pkt)+1))
+						}
+					}
+					peer.Close()
+				}
+			}
 		}
 	}
 	// ---- bursts of well-formed datagrams whose session can never be set up (the router rejects the target port):
